@@ -374,9 +374,17 @@ class Waiting(State):
 
         return cast(State, next_state)  # casting from base.State to process.State
 
+    def _replace_cancelled_wait(self) -> None:
+        """The wait future is cancelled together with the task that was stepping the process while it was blocked on it, and
+        ``execute`` replaces it only once that task has been woken up: a wake-up that arrives in between goes to a new
+        future instead of being refused by (or lost on) the cancelled one"""
+        if self._waiting_future.cancelled():
+            self._waiting_future = futures.Future(loop=self.process.loop)
+
     def resume(self, value: Any = NULL) -> None:
         assert self._waiting_future is not None, 'Not yet waiting'
 
+        self._replace_cancelled_wait()
         if self._waiting_future.done():
             return
 
